@@ -75,6 +75,8 @@ func main() {
 				emitCostCases(w, r, *rounds, *thorough)
 			case "reg":
 				emitRegCases(w, r, *thorough)
+			case "buf":
+				emitBufCases(w, r, *thorough)
 			case "msg":
 				emitMsgCases(w, r, *rounds, parseOnly(*only))
 			default:
